@@ -15,6 +15,7 @@ func init() {
 	register(&Property{
 		ID: "C13",
 		Explanation: "Decides in Runtime.Submit and the response adapter: R13.1 the consumer handed to the response reader is Consumers[<mime.ParseMediaType(content type)>] or, on a miss, Consumers[\"*/*\"]; otherwise an error built from the content type is returned; the content type is the response header, the default media type only when the header is empty; a parse error is returned; " +
+			"Round 12: R13.3 follows Runtime.Context through locals and function literals Submit starts. " +
 			"R13.2 the reader sees the response of this very exchange through the transparent adapter (each accessor returns the corresponding field of the http.Response) and Submit never writes a field of the response; R13.3 the per-operation client takes precedence over the transport's; " +
 			"R13.4 shared transport state: the only field of Runtime written on a call path is `client`, inside the sync.Once, and the value is a fresh http.Client built from Runtime.Transport and Runtime.Jar (never a caller's per-operation client); no package-level variable is written; the request object mutated by buildHTTP is freshly allocated per call. " +
 			"R13.3 also: Runtime.Context is consulted only when the operation carries no context of its own. " +
